@@ -32,7 +32,7 @@ PROP = dict(
             ['EPV.C17.hypo_yield_compressive', 'EPV.C17.ifin_yield_compressive', 'EPV.C17.epp_finite_yield_pos',
              'EPV.C17.fin_yield_compressive', 'EPV.C17.hypo_plastic_compressive', 'EPV.C17.ifin_plastic_compressive',
              'EPV.C17.fin_plastic_compressive'],
-            ['EPPistonHypo', 'EPPistonIfin', 'EPPistonFin'], D.epp_compressive, tie=D.tie_eppiston),
+            ['EPPistonHypo', 'EPPistonIfin', 'EPPistonFin'], [D.epp_compressive, D.epp_profile], tie=D.tie_eppiston),
     ],
     corr_models=[],
     oracle_budget=0.4,
